@@ -156,7 +156,11 @@ func runC15(r *simkit.Run) {
 		}
 		cfg.Outcome = "status:" + code.String()
 		outcome = st.Err()
-		if tp.Chance(1, 4) {
+		if tp.Chance(1, 5) {
+			// the same status one level down an error chain (a pipeline component adding context with %w)
+			cfg.Outcome = "status-wrapped:" + code.String()
+			outcome = fmt.Errorf("sim pipeline component: %w", st.Err())
+		} else if tp.Chance(1, 4) {
 			// the same status inside a permanent error (what an OTLP exporter further down the pipeline returns for a
 			// non-retryable response): still "a consumer error carrying an explicit gRPC status"
 			cfg.Outcome = "status-in-permanent:" + code.String()
